@@ -8,9 +8,13 @@ import json
 from harness.props.poly16 import Poly, canon_monos
 
 ID = "C16"
-RULE = ("a case = a sequence of calls Q(n,k) / QQ(n,k) / number_of_connected_graphs(G,ak,i,k) / "
-        "clique_equation(tau,phi,Hs) / chordless_cycle_equation(n,u,phi) run in one interpreter state (caches cleared "
-        "at the start of the case only; graph objects shared between the calls of a case); Q for all n<=12 and all k "
+RULE = ("a case = a sequence (history) of calls Q(n,k) / QQ(n,k) / number_of_connected_graphs(G,ak,i,k) / "
+        "clique_equation(tau,phi,Hs) / chordless_cycle_equation(n,u,phi) run in one interpreter state (the three anchored "
+        "modules are re-loaded at the start of the case only, so lru_caches / module memos live across the calls of a "
+        "case); graph, ak and Hs OBJECTS are shared between the calls of a case and edited in place between calls "
+        "(edges / vertices added and removed, the same question asked before and after), graphs carry node / edge / "
+        "graph attribute data and every call's arguments are compared before / after (deep copy incl. attributes and "
+        "adjacency order); Q for all n<=12 and all k "
         "(in and just outside 0..n(n-1)/2), ascending, descending, shuffled and repeated; QQ for n<=6 all k; the counter "
         "on random substrates with <=7 vertices, arbitrary labels, random vertex subsets and focal vertices, all k; the "
         "equations on exact polynomial arguments (distinct variables per neighbour, repeated variables, constants), "
